@@ -259,7 +259,40 @@ def c05(res):
                       "a case = one record")
 
 
-CHECKS = {"C01": c01, "C03": c03, "C05": c05, "C02": c02, "C04": c04, "C10": c10, "C14": c14, "C15": c15, "C20": c20}
+def c11(res):
+    wd = workdir("C11")
+    q = res.tier == "quick"
+    res.models.append(model_check("Interval", "Interval_quick.cfg" if q else "Interval_thorough.cfg", wd, workers=8, timeout=3000))
+    progs = gen_programs(res, wd)
+    trace = os.path.join(wd, "trace.ndjson")
+    parts = []
+    for which in ("vm", "jit"):
+        part = os.path.join(wd, "trace_%s.ndjson" % which)
+        # each backend runs in its own process: a crash (signal) of native code is an observation
+        if not run_recorder(res, "c11", [which, progs, res.tier, part], wd):
+            continue
+        parts.append(part)
+    n_id = 0
+    with open(trace, "w") as out:
+        for part in parts:
+            for line in open(part):
+                r = json.loads(line)
+                r["id"] = n_id
+                n_id += 1
+                out.write(json.dumps(r) + "\n")
+    if n_id:
+        n, rej = validate("Trace_C11", trace, wd, timeout=3000)
+        res.validated = n - len(rej)
+        res.evaluations = n
+        res.samples = sample_lines(trace, maxlen=2000)
+        res.add_rejects(trace, rej, lambda r, f: "ev=%s backend=%s kind=%s fails=%s" % (r.get("ev"), r.get("backend"), r.get("kind", r.get("case")), "+".join(sorted(f))))
+    res.assumptions = ["out-of-bounds accesses are observed only as crashes or corrupted guard regions (C02), not proven absent"]
+    return res.finish("random and generator programs plus compositions over the Interval.tla alphabet on finite inputs up to f32::MAX, on "
+                      "every evaluator entry point of VM<255>, VM<3> and the JIT (own process); malformed argument lists through the "
+                      "Function and Shape APIs; a case = one call")
+
+
+CHECKS = {"C01": c01, "C03": c03, "C05": c05, "C11": c11, "C02": c02, "C04": c04, "C10": c10, "C14": c14, "C15": c15, "C20": c20}
 
 
 def replay(prop, path):
